@@ -83,8 +83,11 @@ def g(a, b: "str" = "x") -> Iterator[int]: ...
 def h(a: int, v) -> tuple[int, str]: ...
 def g2(a) -> Generator[tuple[int], tuple[int, str], tuple[int, str]]: ...
 def g3(a) -> Generator[int]: ...
+class W:
+    from nowhere_to_be_found import init as __init__
+class WC(W): ...
 '''
-PARENTS = ["none", "module", "class", "function", "init", "property", "function-iter", "function-tuple", "function-gen-tuples", "function-gen-short"]
+PARENTS = ["none", "module", "class", "function", "init", "property", "function-iter", "function-tuple", "function-gen-tuples", "function-gen-short", "class-init-unresolvable", "class-init-unresolvable-inherited"]
 
 # plan: list of ((tokens over the full alphabet, tokens after a header), option deviations); later entries only add what earlier ones lack
 _PLAN = {"quick": [((2, 2), 1)], "thorough": [((3, 3), 0), ((3, 2), 1), ((2, 2), 2)]}
@@ -161,7 +164,7 @@ def _setup():
     mod = griffe.visit("m", filepath=Path("m.py"), code=PARENT_SRC)
     parents = {
         "none": None, "module": mod, "class": mod["K"], "function": mod["f"], "init": mod["K.__init__"], "property": mod["K.prop"],
-        "function-iter": mod["g"], "function-tuple": mod["h"], "function-gen-tuples": mod["g2"], "function-gen-short": mod["g3"],
+        "function-iter": mod["g"], "function-tuple": mod["h"], "function-gen-tuples": mod["g2"], "function-gen-short": mod["g3"], "class-init-unresolvable": mod["W"], "class-init-unresolvable-inherited": mod["WC"],
     }
     defaults = {}
     for style, fn in (("google", google.parse_google), ("numpy", numpy.parse_numpy), ("sphinx", sphinx.parse_sphinx)):
